@@ -1082,6 +1082,14 @@ var rulePool = &Rule{
 									return
 								}
 								if fa, ok := x.X.(*ssa.FieldAddr); ok {
+									// a mutable object read out of the record of ANOTHER task (a slot of the launcher's task
+									// slice) and placed into this one is shared by two tasks that may run at once
+									if base, ok := fa.X.(*ssa.UnOp); ok && base.Op == token.MUL && d > 0 && isMutableType(x.Type()) {
+										if _, fromSlot := base.X.(*ssa.IndexAddr); fromSlot {
+											bad = "object read from the record of another task at " + c.Pos(x.Pos()) + " and handed to a new task (the index of a finished task is not known here: workers finish in any order)"
+											return
+										}
+									}
 									// field of an object: the object decides (per-task result object vs one shared accumulator)
 									walk(fa.X, d+1)
 									return
